@@ -228,6 +228,10 @@ pub fn record_c15(a: &Args) -> usize {
         cat(&[b":01\n", &f1.to_bytes_with_newline()]),
         cat(&[b"\r\n", &f1.to_bytes_with_newline(), b"\n"]),
         cat(&[&f1.to_bytes(), b"\n", &f2.to_bytes_with_newline()]),
+        // junk and a complete frame on the same line (the whole line is what must be decoded), then a good line
+        cat(&[b"zz", &f1.to_bytes_with_newline(), &f2.to_bytes_with_newline()]),
+        cat(&[b":01", &f2.to_bytes_with_newline(), b"\x00", &f1.to_bytes_with_newline()]),
+        cat(&[&f3.to_bytes(), &f1.to_bytes_with_newline(), &f2.to_bytes_with_newline()]),
     ];
     let mut n = 0usize;
     // exhaustive schedules on the short streams: fragment limit x interrupt placement (<= 2) x hard error at every call
